@@ -140,6 +140,13 @@ def natural_rods(chk, rng, quick):
         dens = int(rng.choice([4, 6, 9, 12]))
         cap = bool(trial % 2)
         grid = sps.CosseratRodSurfaceForcingGrid(grid_dim=3, cosserat_rod=rod, surface_grid_density_for_largest_element=dens, with_cap=cap)
+        # the rod deforms AFTER the grid was built: stretched (radii shrink by volume conservation), moved, re-oriented
+        stretch = 1.0 + 0.4 * rng.random()
+        rod.radius[...] = rod.radius / np.sqrt(stretch)
+        rod.position_collection[...] = rod.position_collection * stretch + rng.normal(size=(3, 1))
+        rod.velocity_collection[...] = rng.normal(size=(3, n + 1))
+        rod.omega_collection[...] = rng.normal(size=(3, n))
+        rod.director_collection[...] = rod.director_collection[[2, 0, 1]]
         grid.compute_lag_grid_position_field()
         grid.compute_lag_grid_velocity_field()
         centre = 0.5 * (rod.position_collection[:, 1:] + rod.position_collection[:, :-1])
